@@ -19,18 +19,18 @@ import (
 	"verifharness/internal/rng"
 )
 
-type rngReader struct{ r *rng.R }
+type keyRngReader struct{ r *rng.R }
 
-func (rr rngReader) Read(p []byte) (int, error) {
+func (rr keyRngReader) Read(p []byte) (int, error) {
 	copy(p, rr.r.Bytes(len(p)))
 	return len(p), nil
 }
 
-var bigOne = big.NewInt(1)
+var keyBigOne = big.NewInt(1)
 
-// detPrime: the first probable prime at or above a random odd number of exactly `bits` bits whose two top
+// keyDetPrime: the first probable prime at or above a random odd number of exactly `bits` bits whose two top
 // bits are set (so that a product of two has exactly 2*bits bits).
-func detPrime(r *rng.R, bits int) *big.Int {
+func keyDetPrime(r *rng.R, bits int) *big.Int {
 	b := r.Bytes((bits + 7) / 8)
 	p := new(big.Int).SetBytes(b)
 	p.SetBit(p, bits-1, 1)
@@ -39,13 +39,13 @@ func detPrime(r *rng.R, bits int) *big.Int {
 		p.SetBit(p, i, 0)
 	}
 	p.SetBit(p, 0, 1)
-	return nextPrime(p)
+	return keyNextPrime(p)
 }
 
-func nextPrime(p *big.Int) *big.Int {
+func keyNextPrime(p *big.Int) *big.Int {
 	p = new(big.Int).Set(p)
 	if p.Bit(0) == 0 {
-		p.Add(p, bigOne)
+		p.Add(p, keyBigOne)
 	}
 	two := big.NewInt(2)
 	for !p.ProbablyPrime(20) {
@@ -54,19 +54,19 @@ func nextPrime(p *big.Int) *big.Int {
 	return p
 }
 
-type rsaSample struct {
+type keyRSASample struct {
 	label string
 	key   *rsa.PrivateKey
 	multi bool
 }
 
-// rsaFromPrimes builds a key from its primes with D = E^-1 mod phi; ok=false when E is not invertible.
-func rsaFromPrimes(e int, precompute bool, primes ...*big.Int) (*rsa.PrivateKey, bool) {
+// keyRSAFromPrimes builds a key from its primes with D = E^-1 mod phi; ok=false when E is not invertible.
+func keyRSAFromPrimes(e int, precompute bool, primes ...*big.Int) (*rsa.PrivateKey, bool) {
 	n := big.NewInt(1)
 	phi := big.NewInt(1)
 	for _, p := range primes {
 		n.Mul(n, p)
-		phi.Mul(phi, new(big.Int).Sub(p, bigOne))
+		phi.Mul(phi, new(big.Int).Sub(p, keyBigOne))
 	}
 	d := new(big.Int).ModInverse(big.NewInt(int64(e)), phi)
 	if d == nil {
@@ -82,22 +82,22 @@ func rsaFromPrimes(e int, precompute bool, primes ...*big.Int) (*rsa.PrivateKey,
 	return k, true
 }
 
-// primeForTop finds q such that p*q has `nbits` bits and starts with the byte `top`.
-func primeForTop(r *rng.R, p *big.Int, nbits int, top byte) *big.Int {
+// keyPrimeForTop finds q such that p*q has `nbits` bits and starts with the byte `top`.
+func keyPrimeForTop(r *rng.R, p *big.Int, nbits int, top byte) *big.Int {
 	target := new(big.Int).SetBytes(append([]byte{top}, r.Bytes((nbits+7)/8-1)...))
 	if extra := target.BitLen() - nbits; extra > 0 {
 		target.Rsh(target, uint(extra))
 	}
 	// keep the byte after `top` away from 0xFF so that rounding up to a prime cannot carry into it
 	q := new(big.Int).Div(target, p)
-	return nextPrime(q)
+	return keyNextPrime(q)
 }
 
-var smallOddPrimes = []int{3, 5, 7, 11, 13, 17, 19, 23, 29, 31, 37, 41, 43, 47, 53, 59, 61, 67, 71, 73, 79, 83, 89, 97, 101, 257, 65537}
+var keySmallOddPrimes = []int{3, 5, 7, 11, 13, 17, 19, 23, 29, 31, 37, 41, 43, 47, 53, 59, 61, 67, 71, 73, 79, 83, 89, 97, 101, 257, 65537}
 
-func buildRSASamples(ctx *Ctx) []*rsaSample {
+func keyBuildRSASamples(ctx *Ctx) []*keyRSASample {
 	r := ctx.R.Fork()
-	var out []*rsaSample
+	var out []*keyRSASample
 	add := func(label string, k *rsa.PrivateKey, ok bool) {
 		if !ok || k == nil {
 			return
@@ -106,38 +106,38 @@ func buildRSASamples(ctx *Ctx) []*rsaSample {
 			ctx.Res.Fail("rsa sample " + label + " is not valid: " + err.Error())
 			return
 		}
-		out = append(out, &rsaSample{label: label, key: k, multi: len(k.Primes) > 2})
+		out = append(out, &keyRSASample{label: label, key: k, multi: len(k.Primes) > 2})
 	}
-	p256a, p256b := detPrime(r, 256), detPrime(r, 256)
-	k, ok := rsaFromPrimes(65537, true, p256a, p256b)
+	p256a, p256b := keyDetPrime(r, 256), keyDetPrime(r, 256)
+	k, ok := keyRSAFromPrimes(65537, true, p256a, p256b)
 	add("r512", k, ok)
-	p512a, p512b := detPrime(r, 512), detPrime(r, 512)
-	k, ok = rsaFromPrimes(65537, true, p512a, p512b)
+	p512a, p512b := keyDetPrime(r, 512), keyDetPrime(r, 512)
+	k, ok = keyRSAFromPrimes(65537, true, p512a, p512b)
 	add("r1024", k, ok)
-	k, ok = rsaFromPrimes(65537, false, p512a, p512b)
+	k, ok = keyRSAFromPrimes(65537, false, p512a, p512b)
 	add("r1024-noprecomp", k, ok)
-	for _, e := range smallOddPrimes {
-		if k, ok = rsaFromPrimes(e, true, p512a, p512b); ok {
+	for _, e := range keySmallOddPrimes {
+		if k, ok = keyRSAFromPrimes(e, true, p512a, p512b); ok {
 			add(fmt.Sprintf("r1024-e%d", e), k, ok)
 			break
 		}
 	}
 	// modulus with top byte 0x80 / 0xFF (the sign bit is set: the binary form gets a whole 0x00 pad block)
-	q80 := primeForTop(r, p512a, 1024, 0x80)
-	k, ok = rsaFromPrimes(65537, true, p512a, q80)
+	q80 := keyPrimeForTop(r, p512a, 1024, 0x80)
+	k, ok = keyRSAFromPrimes(65537, true, p512a, q80)
 	add("r1024-n80", k, ok && k.N.BitLen() == 1024 && k.N.Bytes()[0] == 0x80)
-	qff := primeForTop(r, p512a, 1024, 0xFF)
-	k, ok = rsaFromPrimes(65537, true, p512a, qff)
+	qff := keyPrimeForTop(r, p512a, 1024, 0xFF)
+	k, ok = keyRSAFromPrimes(65537, true, p512a, qff)
 	add("r1024-nFF", k, ok && k.N.BitLen() == 1024 && k.N.Bytes()[0] == 0xFF)
 	// modulus of 1017 bits (top byte 0x01), primes of different byte lengths
-	q505 := detPrime(r, 505)
-	k, ok = rsaFromPrimes(65537, true, p512a, q505)
+	q505 := keyDetPrime(r, 505)
+	k, ok = keyRSAFromPrimes(65537, true, p512a, q505)
 	add("r1017", k, ok)
 	// private exponent with its top bit set on a byte boundary / with a leading zero byte after padding
 	found80, found00 := false, false
-	for _, e := range smallOddPrimes {
+	for _, e := range keySmallOddPrimes {
 		for _, pq := range [][2]*big.Int{{p512a, p512b}, {p512a, q80}, {p512b, qff}, {p256a, p256b}} {
-			k, ok = rsaFromPrimes(e, true, pq[0], pq[1])
+			k, ok = keyRSAFromPrimes(e, true, pq[0], pq[1])
 			if !ok {
 				continue
 			}
@@ -152,51 +152,51 @@ func buildRSASamples(ctx *Ctx) []*rsaSample {
 		}
 	}
 	// three primes: PKCS#1 / PKCS#8 carry them all, the transparent KMIP format has only P and Q
-	p342a, p342b, p342c := detPrime(r, 342), detPrime(r, 342), detPrime(r, 342)
-	k, ok = rsaFromPrimes(65537, true, p342a, p342b, p342c)
+	p342a, p342b, p342c := keyDetPrime(r, 342), keyDetPrime(r, 342), keyDetPrime(r, 342)
+	k, ok = keyRSAFromPrimes(65537, true, p342a, p342b, p342c)
 	add("r3primes", k, ok)
 	if ctx.Thor {
-		p1024a, p1024b := detPrime(r, 1024), detPrime(r, 1024)
-		k, ok = rsaFromPrimes(65537, true, p1024a, p1024b)
+		p1024a, p1024b := keyDetPrime(r, 1024), keyDetPrime(r, 1024)
+		k, ok = keyRSAFromPrimes(65537, true, p1024a, p1024b)
 		add("r2048", k, ok)
-		k, ok = rsaFromPrimes(65537, true, p1024a, primeForTop(r, p1024a, 2048, 0x80))
+		k, ok = keyRSAFromPrimes(65537, true, p1024a, keyPrimeForTop(r, p1024a, 2048, 0x80))
 		add("r2048-n80", k, ok)
-		k, ok = rsaFromPrimes(17, true, detPrime(r, 384), detPrime(r, 384))
+		k, ok = keyRSAFromPrimes(17, true, keyDetPrime(r, 384), keyDetPrime(r, 384))
 		add("r768-e17", k, ok)
 	}
 	return out
 }
 
-type ecSample struct {
+type keyECSample struct {
 	label string
 	curve elliptic.Curve
 	code  uint32 // RecommendedCurve
 	key   *ecdsa.PrivateKey
 }
 
-type curveInfo struct {
+type keyCurveInfo struct {
 	name  string
 	curve elliptic.Curve
 	code  uint32
 }
 
-var keyCurves = []curveInfo{
+var keyCurves = []keyCurveInfo{
 	{"p224", elliptic.P224(), uint32(kmip.RecommendedCurveP_224)},
 	{"p256", elliptic.P256(), uint32(kmip.RecommendedCurveP_256)},
 	{"p384", elliptic.P384(), uint32(kmip.RecommendedCurveP_384)},
 	{"p521", elliptic.P521(), uint32(kmip.RecommendedCurveP_521)},
 }
 
-func ecFromD(c elliptic.Curve, d *big.Int) *ecdsa.PrivateKey {
+func keyECFromD(c elliptic.Curve, d *big.Int) *ecdsa.PrivateKey {
 	k := &ecdsa.PrivateKey{PublicKey: ecdsa.PublicKey{Curve: c}, D: new(big.Int).Set(d)}
 	//nolint:staticcheck
 	k.X, k.Y = c.ScalarBaseMult(d.Bytes())
 	return k
 }
 
-func buildECSamples(ctx *Ctx) []*ecSample {
+func keyBuildECSamples(ctx *Ctx) []*keyECSample {
 	r := ctx.R.Fork()
-	var out []*ecSample
+	var out []*keyECSample
 	for _, ci := range keyCurves {
 		n := ci.curve.Params().N
 		bl := (n.BitLen() + 7) / 8
@@ -204,15 +204,15 @@ func buildECSamples(ctx *Ctx) []*ecSample {
 			if d.Sign() <= 0 || d.Cmp(n) >= 0 {
 				return
 			}
-			out = append(out, &ecSample{label: ci.name + "-" + label, curve: ci.curve, code: ci.code, key: ecFromD(ci.curve, d)})
+			out = append(out, &keyECSample{label: ci.name + "-" + label, curve: ci.curve, code: ci.code, key: keyECFromD(ci.curve, d)})
 		}
 		randD := func(nbytes int) *big.Int {
 			d := new(big.Int).SetBytes(r.Bytes(nbytes))
-			d.Mod(d, new(big.Int).Sub(n, bigOne))
-			return d.Add(d, bigOne)
+			d.Mod(d, new(big.Int).Sub(n, keyBigOne))
+			return d.Add(d, keyBigOne)
 		}
 		add("d1", big.NewInt(1))
-		add("dn1", new(big.Int).Sub(n, bigOne))
+		add("dn1", new(big.Int).Sub(n, keyBigOne))
 		add("rand", randD(bl+8))
 		// leading zero bytes in the scalar
 		add("dlead00", new(big.Int).SetBytes(append([]byte{0, 0, 1}, r.Bytes(bl-3)...)))
@@ -225,12 +225,12 @@ func buildECSamples(ctx *Ctx) []*ecSample {
 		foundX, foundY := false, false
 		for i := 0; i < 4000 && !(foundX && foundY); i++ {
 			d := randD(bl + 8)
-			k := ecFromD(ci.curve, d)
+			k := keyECFromD(ci.curve, d)
 			if !foundX && k.X.BitLen() <= 8*(bl-1) && (n.BitLen()%8 == 0 || k.X.BitLen() <= 8*(bl-1)-7) {
-				out = append(out, &ecSample{label: ci.name + "-x00", curve: ci.curve, code: ci.code, key: k})
+				out = append(out, &keyECSample{label: ci.name + "-x00", curve: ci.curve, code: ci.code, key: k})
 				foundX = true
 			} else if !foundY && k.Y.BitLen() <= 8*(bl-1) && (n.BitLen()%8 == 0 || k.Y.BitLen() <= 8*(bl-1)-7) {
-				out = append(out, &ecSample{label: ci.name + "-y00", curve: ci.curve, code: ci.code, key: k})
+				out = append(out, &keyECSample{label: ci.name + "-y00", curve: ci.curve, code: ci.code, key: k})
 				foundY = true
 			}
 		}
@@ -243,14 +243,14 @@ func buildECSamples(ctx *Ctx) []*ecSample {
 	return out
 }
 
-type bytesSample struct {
+type keyBytesSample struct {
 	label string
 	b     []byte
 }
 
-func buildBytesSamples(ctx *Ctx) []bytesSample {
+func keyBuildBytesSamples(ctx *Ctx) []keyBytesSample {
 	r := ctx.R.Fork()
-	out := []bytesSample{
+	out := []keyBytesSample{
 		{"empty", []byte{}},
 		{"one00", []byte{0}},
 		{"one80", []byte{0x80}},
@@ -258,7 +258,7 @@ func buildBytesSamples(ctx *Ctx) []bytesSample {
 		{"aes192", r.Bytes(24)},
 		{"aes256", r.Bytes(32)},
 		{"zeros16", make([]byte, 16)},
-		{"ff32", bytesRepeat(0xFF, 32)},
+		{"ff32", keyBytesRepeat(0xFF, 32)},
 		{"lead00", append([]byte{0, 0, 0}, r.Bytes(13)...)},
 		{"lead80", append([]byte{0x80}, r.Bytes(31)...)},
 		{"odd7", r.Bytes(7)},
@@ -268,7 +268,7 @@ func buildBytesSamples(ctx *Ctx) []bytesSample {
 	return out
 }
 
-func bytesRepeat(b byte, n int) []byte {
+func keyBytesRepeat(b byte, n int) []byte {
 	out := make([]byte, n)
 	for i := range out {
 		out[i] = b
@@ -286,10 +286,10 @@ type keyBlobs struct {
 	points map[string][]byte // u<code> / c<code>
 }
 
-func buildBlobs(ctx *Ctx, rsaKey *rsa.PrivateKey) *keyBlobs {
+func keyBuildBlobs(ctx *Ctx, rsaKey *rsa.PrivateKey) *keyBlobs {
 	r := ctx.R.Fork()
 	kb := &keyBlobs{byName: map[string][]byte{}, byHex: map[string]string{}, points: map[string][]byte{}, rsa: rsaKey}
-	ecKey := ecFromD(elliptic.P256(), new(big.Int).SetBytes(append([]byte{1}, r.Bytes(30)...)))
+	ecKey := keyECFromD(elliptic.P256(), new(big.Int).SetBytes(append([]byte{1}, r.Bytes(30)...)))
 	kb.ec = ecKey
 	edKey := ed25519.NewKeyFromSeed(r.Bytes(ed25519.SeedSize))
 	must := func(b []byte, err error) []byte {
@@ -313,7 +313,7 @@ func buildBlobs(ctx *Ctx, rsaKey *rsa.PrivateKey) *keyBlobs {
 		NotBefore:    time.Unix(1700000000, 0),
 		NotAfter:     time.Unix(1900000000, 0),
 	}
-	der, err := x509.CreateCertificate(rngReader{r}, tmpl, tmpl, &ecKey.PublicKey, ecKey)
+	der, err := x509.CreateCertificate(keyRngReader{r}, tmpl, tmpl, &ecKey.PublicKey, ecKey)
 	if err != nil {
 		ctx.Res.Fail("cannot create the sample certificate: " + err.Error())
 	} else {
@@ -321,7 +321,7 @@ func buildBlobs(ctx *Ctx, rsaKey *rsa.PrivateKey) *keyBlobs {
 		kb.cert, _ = x509.ParseCertificate(der)
 	}
 	for _, ci := range keyCurves {
-		k := ecFromD(ci.curve, big.NewInt(int64(1000+ci.code)))
+		k := keyECFromD(ci.curve, big.NewInt(int64(1000+ci.code)))
 		//nolint:staticcheck
 		kb.byName[fmt.Sprintf("u%d", ci.code)] = elliptic.Marshal(ci.curve, k.X, k.Y)
 		kb.byName[fmt.Sprintf("c%d", ci.code)] = elliptic.MarshalCompressed(ci.curve, k.X, k.Y)
